@@ -6,6 +6,7 @@ import (
 	"go/constant"
 	"go/token"
 	"math/big"
+	"sort"
 	"strings"
 )
 
@@ -228,92 +229,50 @@ func ruleTabPayload(c *Ctx) {
 			return true
 		})
 	}
-	// Payload.String cases
+	// Payload.String: constant propagation of every packed (op, lhs, rhs) code through String/argString
 	if fd := c.fn("Payload.String"); fd != nil {
-		var sw *ast.SwitchStmt
-		ast.Inspect(fd.Body, func(n ast.Node) bool {
-			if s, ok := n.(*ast.SwitchStmt); ok && sw == nil {
-				sw = s
-			}
-			return true
-		})
-		if sw == nil {
-			c.undecided("payload.string", fd, "switch not found")
-		} else {
-			env := p.newCanonEnv(fd)
-			c.check(env.canon(sw.Tag) == "(K(255)&R)", "payload.string.tag", sw, "switch on p & 0xff", "Payload.String must switch on the low 8 bits (operation code): "+env.canon(sw.Tag))
-			seen := map[int64]bool{}
-			for _, cc := range sw.Body.List {
-				cl := cc.(*ast.CaseClause)
-				if cl.List == nil {
-					continue
-				}
-				if len(cl.List) != 1 || len(cl.Body) != 1 {
-					c.undecided("payload.string.case", cl, "unexpected case shape")
-					continue
-				}
-				opv, ok := p.constInt64(cl.List[0])
-				if !ok {
-					c.undecided("payload.string.case", cl, "non-constant case")
-					continue
-				}
-				seen[opv] = true
-				on := opNames[opv]
-				ret, ok := cl.Body[0].(*ast.ReturnStmt)
-				if !ok || len(ret.Results) != 1 {
-					c.undecided("payload.string.case:"+on, cl, "case does not return a string")
-					continue
-				}
-				// flatten the concatenation
-				var lits []string
-				var offs []int64
-				var walk func(e ast.Expr) bool
-				walk = func(e ast.Expr) bool {
-					e = ast.Unparen(e)
-					if v := p.constOf(e); v != nil && v.Kind() == constant.String {
-						lits = append(lits, constant.StringVal(v))
-						return true
+		clsName := map[int64]string{}
+		for v, n := range valNames {
+			clsName[v] = map[string]string{"PosZero": "Zero", "NegZero": "-Zero", "PosFinite": "Finite", "NegFinite": "-Finite", "PosInfinite": "Infinite", "NegInfinite": "-Infinite"}[n]
+		}
+		var opCodes []int64
+		for v := range opNames {
+			opCodes = append(opCodes, v)
+		}
+		sort.Slice(opCodes, func(i, j int) bool { return opCodes[i] < opCodes[j] })
+		for _, opv := range opCodes {
+			on := opNames[opv]
+			ar := arity[on]
+			bad := ""
+			n := 0
+			for l := int64(0); l <= 6; l++ {
+				for r := int64(0); r <= 6; r++ {
+					if (ar < 1 && l != 0) || (ar < 2 && r != 0) || (ar >= 1 && l == 0) || (ar >= 2 && r == 0) {
+						continue
 					}
-					switch x := e.(type) {
-					case *ast.BinaryExpr:
-						return x.Op == token.ADD && walk(x.X) && walk(x.Y)
-					case *ast.CallExpr:
-						if p.isPkgFunc(x, "Payload.argString") && len(x.Args) == 1 {
-							o, ok := p.constInt64(x.Args[0])
-							offs = append(offs, o)
-							lits = append(lits, "\x00")
-							return ok
+					code := opv | l<<8 | r<<16
+					in := newInterp(p)
+					in.inlineAll = true
+					outs := in.runFunc(fd, avInt{code}, nil)
+					want := on + "("
+					if ar >= 1 {
+						want += clsName[l]
+					}
+					if ar >= 2 {
+						want += ", " + clsName[r]
+					}
+					want += ")"
+					n++
+					if len(outs) != 1 || outs[0].avKey() != "str:"+want {
+						var ks []string
+						for _, o := range outs {
+							ks = append(ks, o.avKey())
 						}
+						bad = fmt.Sprintf("payload %#x (%s with operand classes %d,%d) prints %v, want %q", code, on, l, r, ks, want)
 					}
-					return false
-				}
-				if !walk(ret.Results[0]) {
-					c.undecided("payload.string.case:"+on, cl, "unrecognised string expression")
-					continue
-				}
-				text := strings.Join(lits, "")
-				wantText := on + "("
-				for i := range offs {
-					if i > 0 {
-						wantText += ", "
-					}
-					wantText += "\x00"
-				}
-				wantText += ")"
-				wantOffs := len(offs) == arity[on]
-				for i, o := range offs {
-					if o != int64(8*(i+1)) {
-						wantOffs = false
-					}
-				}
-				c.check(text == wantText && wantOffs, "payload.string.case:"+on, cl, fmt.Sprintf("prints %s with %d operand classes from bits 8.., 16..", on, len(offs)),
-					fmt.Sprintf("Payload.String case for %s prints %q with operand offsets %v; want %q with %d operands at offsets 8,16", on, strings.ReplaceAll(text, "\x00", "<arg>"), offs, strings.ReplaceAll(wantText, "\x00", "<arg>"), arity[on]))
-			}
-			for v, on := range opNames {
-				if !seen[v] {
-					c.bad("payload.string.missing:"+on, sw, "Payload.String has no case for operation "+on)
 				}
 			}
+			c.check(bad == "" && n > 0, "payload.string:"+on, fd, fmt.Sprintf("all %d packed codes of %s print Name(args)", n, on), "Payload.String: "+bad)
 		}
 	}
 	if fd := c.fn("Payload.argString"); fd != nil {
